@@ -211,6 +211,167 @@ pub fn float_lattice(seed: u64, extra: u64) -> Vec<f64> {
     v
 }
 
+/// mantissa (with the hidden bit) and the exponent of the unit in the last place: |x| = m * 2^e
+fn mant_exp(x: f64) -> (u64, i32) {
+    let b = x.to_bits();
+    let e = ((b >> 52) & 0x7ff) as i32;
+    let f = b & ((1u64 << 52) - 1);
+    if e == 0 { (f, -1074) } else { (f | (1u64 << 52), e - 1075) }
+}
+
+/// witness for `a % b`: the magnitude of trunc(a / b) as limbs, when it fits (NlFloatArith verifies
+/// a = q * b + r exactly, so this is only a witness and is not trusted)
+fn mod_witness(a: f64, b: f64) -> Option<Value> {
+    if !a.is_finite() || !b.is_finite() || a == 0.0 || b == 0.0 || a.abs() < b.abs() {
+        return None;
+    }
+    let (ma, ea) = mant_exp(a);
+    let (mb, eb) = mant_exp(b);
+    if ea < eb {
+        return Some(big_json((ma as u128 / ((mb as u128) << (eb - ea))) as i128)["mag"].clone());
+    }
+    // long division of ma * 2^(ea - eb) by mb, bit by bit; the quotient is kept in base-10^4 limbs
+    let mut q: Vec<u64> = Vec::new();
+    let mut rem: u128 = 0;
+    let total = 64 + (ea - eb) as usize;
+    for i in 0..total {
+        let bit = if i < 64 { (ma >> (63 - i)) & 1 } else { 0 };
+        rem = rem * 2 + bit as u128;
+        let qb = if rem >= mb as u128 { rem -= mb as u128; 1 } else { 0 };
+        let mut carry = qb;
+        for l in q.iter_mut() {
+            let v = *l * 2 + carry;
+            *l = v % 10000;
+            carry = v / 10000;
+        }
+        if carry > 0 {
+            q.push(carry);
+        }
+    }
+    Some(json!(q))
+}
+
+/// pairs chosen so that the exact result of an operator falls between two floats, exactly half way between two
+/// floats, just beside half way, beyond the largest float, or below the smallest normal one
+pub fn rounding_pairs(seed: u64, n: u64) -> Vec<(f64, f64)> {
+    let mut rng = StdRng::seed_from_u64(seed ^ 0x0f10a7a1);
+    let mut v: Vec<(f64, f64)> = Vec::new();
+    // 2^k exactly, subnormal powers included
+    let p2 = |k: i32| -> f64 { if k >= -1022 { f64::from_bits(((k + 1023) as u64) << 52) } else { f64::from_bits(1u64 << (k + 1074)) } };
+    let mk = |m: u64, e: i32| -> f64 { (m as f64) * p2(e) }; // exact for m < 2^53 and results in range
+    // directed: ties and near-ties of a sum, at even and odd last bits, both signs, at a power of two
+    for &m in &[1u64 << 52, (1 << 52) + 1, (1 << 52) + 2, (1 << 53) - 1, (1 << 53) - 2, 0x1b_5e62_0f48_3ad7, 0x14_0000_0000_0001] {
+        for &e in &[-52i32, 0, 17, -300, 300] {
+            let a = mk(m, e);
+            for h in [p2(e - 1), p2(e - 1) + p2(e - 40), p2(e - 1) - p2(e - 40), p2(e - 2), 3.0 * p2(e - 2), p2(e) + p2(e - 1)] {
+                v.push((a, h));
+                v.push((a, -h));
+                v.push((-a, h));
+            }
+        }
+    }
+    // products and quotients that need rounding; classic decimal fractions
+    for (a, b) in [(67108865.0, 134217729.0), (1.0000000000000002, 1.0000000000000002), (0.1, 0.2), (0.1, 3.0), (0.7, 0.1), (1.0, 3.0),
+                   (2.0, 3.0), (1.0, 10.0), (4.35, 100.0), (1.1, 1.1), (1e16, 1.0), (1e16, 3.0), (9007199254740993.0, 1.0),
+                   (9007199254740992.0, 1.0), (9007199254740994.0, -1.0), (0.3, 0.1), (5.5, 2.5), (-5.5, 2.5), (5.5, -2.5), (1e22, 7.0),
+                   (1e300, 1e-300), (123456789.123, 0.001), (6.0, 0.1), (1.0, 0.1), (1e17, 3.0), (-7.0, 2.0), (7.5, 0.5)] {
+        v.push((a, b));
+        v.push((b, a));
+    }
+    // the edge of the range: results at, just below and just above where rounding reaches infinity
+    let max = f64::MAX;
+    for b in [p2(970), p2(969), p2(970) - p2(930), p2(970) + p2(930), p2(971), max, p2(1023), 1.0000000000000002, 1.0000000000000004, 2.0, 0.5, 1.0 - p2(-53)] {
+        v.push((max, b));
+        v.push((-max, b));
+        v.push((max, -b));
+        v.push((p2(1023), b));
+    }
+    v.push((1e200, 1e200));
+    v.push((1e200, 1e-200));
+    v.push((1e308, 10.0));
+    v.push((1e308, 0.1));
+    // the bottom of the range: subnormal results, ties towards zero and towards the smallest subnormal
+    let tiny = 5e-324;
+    for a in [tiny, 2.0 * tiny, 3.0 * tiny, 5.0 * tiny, f64::MIN_POSITIVE, f64::MIN_POSITIVE - tiny, f64::MIN_POSITIVE + tiny, 1.5 * f64::MIN_POSITIVE, mk((1 << 52) + 1, -1074)] {
+        for b in [0.5, 0.25, 0.75, 1.5, 0.5 + p2(-30), 0.5 - p2(-30), 2.0, 3.0, 1e-5, p2(-52), p2(-53), 1.0 + p2(-52), tiny, f64::MIN_POSITIVE, 1e300] {
+            v.push((a, b));
+            v.push((-a, b));
+            v.push((b, a));
+        }
+    }
+    for (a, b) in [(1e-200, 1e-200), (1e-160, 1e-160), (1e-162, 1e-162), (1e-300, 1e10), (1e-320, 3.0), (3e-310, 1e5)] {
+        v.push((a, b));
+    }
+    // random mantissas, exponents near each other (so that both operands matter), all four sign combinations
+    let sign = |rng: &mut StdRng, x: f64| if rng.gen_range(0..4) == 0 { -x } else { x };
+    for i in 0..n {
+        let ma: u64 = (1u64 << 52) | (rng.gen::<u64>() & ((1u64 << 52) - 1));
+        let mb: u64 = match i % 4 {
+            0 => (1u64 << 52) | (rng.gen::<u64>() & ((1u64 << 52) - 1)),
+            1 => (1u64 << 52) | (rng.gen::<u64>() & 0xff) << rng.gen_range(0..44),   // few bits set
+            2 => (1u64 << 52) | ((1u64 << rng.gen_range(1..52)) - 1),               // run of ones
+            _ => ((1u64 << 52) | (rng.gen::<u64>() & ((1u64 << 52) - 1))) & !((1u64 << rng.gen_range(0..52)) - 1), // trailing zeros
+        };
+        let ea = match i % 7 { 0 => rng.gen_range(-1074..-960), 1 => rng.gen_range(880..971), 2 => rng.gen_range(-560..-480), 3 => rng.gen_range(440..520), _ => rng.gen_range(-120..60) };
+        let d = match i % 5 { 0 => 0, 1 => rng.gen_range(-3..4), 2 => rng.gen_range(-56..57), 3 => rng.gen_range(-70..71), _ => rng.gen_range(-12..13) };
+        let eb = (ea + d).clamp(-1074, 970);
+        let a = sign(&mut rng, mk(ma, ea));
+        let b = sign(&mut rng, mk(mb, eb));
+        if a.is_finite() && b.is_finite() {
+            v.push((a, b));
+        }
+    }
+    v
+}
+
+fn float_pair_record(id: u64, a: f64, b: f64, with_spellings: bool) -> Value {
+    let (ta, tb) = (float_text(a), float_text(b));
+    let mut cmp = serde_json::Map::new();
+    let mut ar = serde_json::Map::new();
+    for op in OPS {
+        let forms = [
+            format!("{ta} {op} {tb}"),
+            format!("functie f(x) {{ x {op} {tb} }} f({ta})"),
+            format!("functie f(x) {{ {ta} {op} x }} f({tb})"),
+        ];
+        let v: Vec<Value> = forms.iter().map(|t| observe_float(t)).collect();
+        if ["+", "-", "*", "/", "%"].contains(&op) {
+            ar.insert(op.to_string(), Value::Array(v));
+        } else {
+            cmp.insert(op.to_string(), Value::Array(v));
+        }
+    }
+    // the operand as a program of its own: the literal (or the expression that spells a special value) must
+    // denote exactly this float; and so must a spelling with more digits than are needed to identify it
+    let long = |x: f64, t: &str| -> String {
+        if x.is_finite() && x.abs() >= 1e-5 && x.abs() < 1e15 {
+            let l = format!("{:.25}", x.abs());
+            if x.is_sign_negative() { format!("(-{l})") } else { l }
+        } else {
+            t.to_string()
+        }
+    };
+    let lit = vec![observe_float(&ta), observe_float(&tb), observe_float(&long(a, &ta)), observe_float(&long(b, &tb))];
+    // spellings of a with 15 .. 20 significant digits: each denotes the float nearest to the decimal written
+    // (ground truth: Rust's correctly rounded conversion of the same text)
+    let mut spellings: Vec<Value> = Vec::new();
+    if with_spellings && a.is_finite() && a.abs() >= 1e-3 && a.abs() < 1e9 {
+        let int_digits = format!("{:.0}", a.abs().trunc()).trim_start_matches('0').len();
+        for sig in 15usize..=20 {
+            if sig > int_digits {
+                let t = format!("{:.*}", sig - int_digits, a.abs());
+                let want: f64 = t.parse().unwrap();
+                spellings.push(json!({"text":t,"want":float_fields(want),"obs":observe_float(&t)}));
+            }
+        }
+    }
+    let mut rec = json!({"id":id,"a":float_fields(a),"b":float_fields(b),"at":ta,"bt":tb,"cmp":cmp,"ar":ar,"lit":lit,"spellings":spellings});
+    if let Some(q) = mod_witness(a, b) {
+        rec["modq"] = q;
+    }
+    rec
+}
+
 pub fn gen_float(args: &Args) {
     crate::run::install_quiet_panic_hook();
     nederlang::verif::reset();
@@ -219,59 +380,30 @@ pub fn gen_float(args: &Args) {
     let shard = args.num("shard", 0);
     let shards = args.num("shards", 1);
     let extra = args.num("extra", 10);
+    let rounding = args.num("rounding", 0);
     let first_id = args.num("first-id", 1);
     let mut f = std::io::BufWriter::new(std::fs::File::create(&out).expect("create out"));
     let lat = float_lattice(seed, extra);
     let mut id = first_id;
     let mut k = 0u64;
-    for &a in &lat {
-        for &b in &lat {
-            k += 1;
-            if k % shards != shard {
-                continue;
-            }
-            let (ta, tb) = (float_text(a), float_text(b));
-            let mut cmp = serde_json::Map::new();
-            let mut ar = serde_json::Map::new();
-            for op in OPS {
-                let forms = [
-                    format!("{ta} {op} {tb}"),
-                    format!("functie f(x) {{ x {op} {tb} }} f({ta})"),
-                    format!("functie f(x) {{ {ta} {op} x }} f({tb})"),
-                ];
-                let v: Vec<Value> = forms.iter().map(|t| observe_float(t)).collect();
-                if ["+", "-", "*", "/", "%"].contains(&op) {
-                    ar.insert(op.to_string(), Value::Array(v));
-                } else {
-                    cmp.insert(op.to_string(), Value::Array(v));
-                }
-            }
-            // the operand as a program of its own: the literal (or the expression that spells a special value) must
-            // denote exactly this float; and so must a spelling with more digits than are needed to identify it
-            let long = |x: f64, t: &str| -> String {
-                if x.is_finite() && x.abs() >= 1e-5 && x.abs() < 1e15 {
-                    let l = format!("{:.25}", x.abs());
-                    if x.is_sign_negative() { format!("(-{l})") } else { l }
-                } else {
-                    t.to_string()
-                }
-            };
-            let lit = vec![observe_float(&ta), observe_float(&tb), observe_float(&long(a, &ta)), observe_float(&long(b, &tb))];
-            // spellings of a with 15 .. 20 significant digits: each denotes the float nearest to the decimal written
-            // (ground truth: Rust's correctly rounded conversion of the same text)
-            let mut spellings: Vec<Value> = Vec::new();
-            if b.to_bits() == lat[0].to_bits() && a.is_finite() && a.abs() >= 1e-3 && a.abs() < 1e9 {
-                let int_digits = format!("{:.0}", a.abs().trunc()).trim_start_matches('0').len();
-                for sig in 15usize..=20 {
-                    if sig > int_digits {
-                        let t = format!("{:.*}", sig - int_digits, a.abs());
-                        let want: f64 = t.parse().unwrap();
-                        spellings.push(json!({"text":t,"want":float_fields(want),"obs":observe_float(&t)}));
-                    }
-                }
-            }
-            writeln!(f, "{}", json!({"id":id,"a":float_fields(a),"b":float_fields(b),"at":ta,"bt":tb,"cmp":cmp,"ar":ar,"lit":lit,"spellings":spellings})).unwrap();
-            id += 1;
+    let mut pairs: Vec<(f64, f64, bool)> = Vec::new();
+    if args.get("family", "lattice") == "rounding" {
+        for (a, b) in rounding_pairs(seed, rounding) {
+            pairs.push((a, b, false));
         }
+    } else {
+        for &a in &lat {
+            for &b in &lat {
+                pairs.push((a, b, b.to_bits() == lat[0].to_bits()));
+            }
+        }
+    }
+    for (a, b, sp) in pairs {
+        k += 1;
+        if k % shards != shard {
+            continue;
+        }
+        writeln!(f, "{}", float_pair_record(id, a, b, sp)).unwrap();
+        id += 1;
     }
 }
